@@ -360,8 +360,6 @@ func printReproducePCR0Result(
 		fmt.Printf("\tCorrectedACMPolicyStatus: %016X (given: %016X)\n", *result.ACMPolicyStatus, regs.Find(registers.AcmPolicyStatusRegisterID))
 	}
 
-	resultCommandLog := make(tpm.CommandLog, 0, len(commandLog))
-
 	measurementIdx := map[*tpm.CommandLogEntry]int{}
 	for idx := range commandLog {
 		measurementIdx[&commandLog[idx]] = idx
@@ -375,11 +373,12 @@ func printReproducePCR0Result(
 			fmt.Printf("\t\t%3d.) %v\n", idx, disabledMeasurement)
 		}
 	}
+	// The entries to replay, the disabled measurements still among them: the indices
+	// of OrderSwaps count the PCR0 measurements of the log including the disabled ones
+	// (and not the TPMInit entry).
+	resultEntries := make([]*tpm.CommandLogEntry, 0, len(commandLog))
 	containsInitCmd := false
 	for idx, logEntry := range commandLog {
-		if _, ok := measurementIdx[&commandLog[idx]]; !ok {
-			continue
-		}
 		switch cmd := logEntry.Command.(type) {
 		case *tpm.CommandEventLogAdd:
 			continue
@@ -399,7 +398,7 @@ func printReproducePCR0Result(
 				continue
 			}
 		}
-		resultCommandLog = append(resultCommandLog, logEntry)
+		resultEntries = append(resultEntries, &commandLog[idx])
 	}
 
 	if len(result.OrderSwaps) != 0 {
@@ -407,7 +406,20 @@ func printReproducePCR0Result(
 		for idx, orderSwap := range result.OrderSwaps {
 			fmt.Printf("\t\t%3d.) #%d <-> #%d\n", idx+1, orderSwap.IdxA, orderSwap.IdxB)
 		}
-		pcrbruteforcer.ApplyOrderSwaps(result.OrderSwaps, resultCommandLog)
+		measurements := resultEntries
+		if containsInitCmd {
+			measurements = resultEntries[1:]
+		}
+		pcrbruteforcer.ApplyOrderSwaps(result.OrderSwaps, measurements)
+	}
+
+	resultCommandLog := make(tpm.CommandLog, 0, len(resultEntries))
+	for _, logEntry := range resultEntries {
+		if _, ok := measurementIdx[logEntry]; !ok {
+			// disabled
+			continue
+		}
+		resultCommandLog = append(resultCommandLog, *logEntry)
 	}
 
 	fmt.Printf("\tThe instruction to reproduce the PCR0:\n")
